@@ -18,7 +18,11 @@ use domain::base::name::{Name, ParsedName, ToLabelIter, ToName};
 use domain::base::rdata::{ComposeRecordData, RecordData, UnknownRecordData};
 use domain::base::record::RecordHeader;
 use domain::base::wire::Composer;
-use domain::base::{Message, MessageBuilder, Question, Rtype, Serial, Ttl};
+use domain::base::opt::cookie::{ClientCookie, ServerCookie};
+use domain::base::opt::{Cookie, KeyTag, Nsid, Opt, OptRecord, Padding, TcpKeepalive};
+use domain::base::rdata::ParseRecordData;
+use domain::base::{Message, MessageBuilder, Question, Record, Rtype, Serial, Ttl};
+use domain::rdata::AllRecordData;
 use domain::rdata::{Aaaa, Cname, Mx, Ns, Ptr, Soa, Srv, A};
 use domain::dep::octseq::array::Array;
 use domain::dep::octseq::Parser;
@@ -44,8 +48,13 @@ enum Op {
     Q { name: Wire, qt: u16, qc: u16 },
     R { owner: Wire, rt: u16, cl: u16, ttl: u32, pfx: u8, items: Vec<It> },
     O { udp: u16, rc: Option<u16>, ver: u8, dok: bool, opts: Vec<(u16, Vec<u8>)> },
+    /// OptBuilder::clone_from(&OptRecord { udp, ext rcode octet, version, 16 flag bits, options })
+    C { udp: u16, ext: u8, ver: u8, flags: u16, opts: Vec<(u16, Vec<u8>)> },
     /// header_mut() setters so that the four header octets become these
     H([u8; 4]),
+    /// .builder() then start_answer (kind 0) / start_error (1) of a query with this id,
+    /// opcode, rd and these questions, or request_axfr(first question's name) + set_id (2)
+    S { kind: u8, id: u16, opcode: u8, rd: bool, rcode: u8, qs: Vec<(Wire, u16, u16)> },
     G(u8),
     B,
     W,
@@ -104,6 +113,32 @@ fn op_str(op: &Op) -> String {
             s
         }
         Op::H(h) => format!("h{}", hexraw(h)),
+        Op::S { kind, id, opcode, rd, rcode, qs } => {
+            let mut s = format!("S:{}:{}:{}:{}:{}:", kind, id, opcode, if *rd { 1 } else { 0 }, rcode);
+            if qs.is_empty() {
+                s.push('-');
+            }
+            for (i, (n, t, c)) in qs.iter().enumerate() {
+                if i > 0 {
+                    s.push(',');
+                }
+                let _ = write!(s, "{}.{}.{}", hexraw(n), t, c);
+            }
+            s
+        }
+        Op::C { udp, ext, ver, flags, opts } => {
+            let mut s = format!("c:{}:{}:{}:{}:", udp, ext, ver, flags);
+            if opts.is_empty() {
+                s.push('-');
+            }
+            for (i, (code, data)) in opts.iter().enumerate() {
+                if i > 0 {
+                    s.push(',');
+                }
+                let _ = write!(s, "{}.{}", code, if data.is_empty() { "-".to_string() } else { hexraw(data) });
+            }
+            s
+        }
         Op::O { udp, rc, ver, dok, opts } => {
             let mut s = if rc.is_none() && *ver == 0 && !*dok {
                 format!("o:{}:", udp)
@@ -130,7 +165,7 @@ fn op_str(op: &Op) -> String {
 }
 
 fn is_push(op: &Op) -> bool {
-    matches!(op, Op::Q { .. } | Op::R { .. } | Op::O { .. })
+    matches!(op, Op::Q { .. } | Op::R { .. } | Op::O { .. } | Op::C { .. } | Op::S { .. })
 }
 
 // -------------------------------------------------------- compiled script
@@ -190,7 +225,11 @@ enum COp {
     R { owner: Name<Vec<u8>>, cl: u16, ttl: u32, raw: Raw },
     O { udp: u16, rc: Option<u16>, ver: u8, dok: bool, opts: Vec<(u16, Vec<u8>)> },
     T { owner: Name<Vec<u8>>, cl: u16, ttl: u32, typed: Typed },
+    /// any record data the library can parse from these octets (AllRecordData)
+    TA { owner: Name<Vec<u8>>, cl: u16, ttl: u32, rt: u16, bytes: Vec<u8> },
+    C { udp: u16, ttl: u32, data: Vec<u8> },
     H([u8; 4]),
+    S { kind: u8, id: u16, opcode: u8, rd: bool, rcode: u8, qs: Vec<(Wire, u16, u16)> },
     G(u8),
     B,
     W,
@@ -233,6 +272,27 @@ fn typed_of(rt: u16, items: &[It]) -> Option<Typed> {
     }
 }
 
+/// The uncompressed octets of the items if the library parses them completely
+/// as record data of type `rt` (then the typed value is pushed).
+fn all_parses(rt: u16, items: &[It]) -> Option<Vec<u8>> {
+    let mut bytes = Vec::new();
+    for it in items {
+        match it {
+            It::B(b) => bytes.extend_from_slice(b),
+            It::Z(n, v) => bytes.extend(std::iter::repeat(*v).take(*n)),
+            It::N(w) | It::U(w) => bytes.extend_from_slice(w),
+        }
+    }
+    if bytes.len() > 65535 {
+        return None;
+    }
+    let ok = {
+        let mut p = Parser::from_ref(&bytes[..]);
+        matches!(AllRecordData::<&[u8], ParsedName<&[u8]>>::parse_rdata(Rtype::from_int(rt), &mut p), Ok(Some(_))) && p.remaining() == 0
+    };
+    if ok { Some(bytes) } else { None }
+}
+
 /// Generated names are valid by construction (labels <= 63, total <= 255).
 fn to_name(w: &Wire) -> Name<Vec<u8>> {
     match Name::from_octets(w.clone()) {
@@ -249,6 +309,9 @@ fn compile(op: &Op) -> COp {
         Op::Q { name, qt, qc } => COp::Q { name: to_name(name), qt: *qt, qc: *qc },
         Op::R { owner, rt, cl, ttl, pfx: 2, items } if typed_of(*rt, items).is_some() => {
             COp::T { owner: to_name(owner), cl: *cl, ttl: *ttl, typed: typed_of(*rt, items).unwrap_or(Typed::A(A::from_octets(0, 0, 0, 0))) }
+        }
+        Op::R { owner, rt, cl, ttl, pfx: 2, items } if all_parses(*rt, items).is_some() => {
+            COp::TA { owner: to_name(owner), cl: *cl, ttl: *ttl, rt: *rt, bytes: all_parses(*rt, items).unwrap_or_default() }
         }
         Op::R { owner, rt, cl, ttl, pfx, items } => {
             let mut ci = Vec::with_capacity(items.len());
@@ -267,6 +330,16 @@ fn compile(op: &Op) -> COp {
         }
         Op::O { udp, rc, ver, dok, opts } => COp::O { udp: *udp, rc: *rc, ver: *ver, dok: *dok, opts: opts.clone() },
         Op::H(h) => COp::H(*h),
+        Op::S { kind, id, opcode, rd, rcode, qs } => COp::S { kind: *kind, id: *id, opcode: *opcode, rd: *rd, rcode: *rcode, qs: qs.clone() },
+        Op::C { udp, ext, ver, flags, opts } => {
+            let mut data = Vec::new();
+            for (code, d) in opts {
+                data.extend_from_slice(&code.to_be_bytes());
+                data.extend_from_slice(&(d.len() as u16).to_be_bytes());
+                data.extend_from_slice(d);
+            }
+            COp::C { udp: *udp, ttl: ((*ext as u32) << 24) | ((*ver as u32) << 16) | *flags as u32, data }
+        }
         Op::G(k) => COp::G(*k),
         Op::B => COp::B,
         Op::W => COp::W,
@@ -286,6 +359,8 @@ trait Tgt: Composer + Clone {
 impl Tgt for Vec<u8> {}
 impl Tgt for BytesMut {}
 impl<const N: usize> Tgt for Array<N> {}
+impl<const N: usize> Tgt for heapless::Vec<u8, N> {}
+impl Tgt for smallvec::SmallVec<[u8; 24]> {}
 impl Tgt for StreamTarget<Vec<u8>> {
     fn stream(&self) -> Option<&[u8]> {
         Some(self.as_stream_slice())
@@ -370,6 +445,8 @@ enum Res {
     /// a non-push op
     None,
     Push(Result<(), PushError>),
+    /// start_answer / request_axfr failed: the builder was consumed
+    Lost(PushError),
 }
 
 /// Runs one op; `Err` is a panic (the builder is gone or unusable then).
@@ -414,6 +491,69 @@ fn apply<T: Tgt>(slot: &mut Option<Bld<T>>, op: &COp) -> Result<Res, String> {
                 None => Err("no builder".into()),
             }
         }
+        COp::TA { owner, cl, ttl, rt, bytes } => {
+            let cl = Class::from_int(*cl);
+            let mut p = Parser::from_ref(&bytes[..]);
+            let data = match AllRecordData::<&[u8], ParsedName<&[u8]>>::parse_rdata(Rtype::from_int(*rt), &mut p) {
+                Ok(Some(d)) => d,
+                _ => return Err("harness: typed record data no longer parses".into()),
+            };
+            match slot.as_mut() {
+                Some(Bld::An(b)) => catch_mut(|| Res::Push(b.push((owner, cl, *ttl, &data)))),
+                Some(Bld::Ns(b)) => catch_mut(|| Res::Push(b.push((owner, cl, *ttl, &data)))),
+                Some(Bld::Ar(b)) => catch_mut(|| Res::Push(b.push((owner, cl, *ttl, &data)))),
+                Some(Bld::Q(_)) => Ok(Res::Skip),
+                None => Err("no builder".into()),
+            }
+        }
+        COp::C { udp, ttl, data } => match slot.as_mut() {
+            Some(Bld::Ar(b)) => {
+                let opt = match Opt::from_octets(&data[..]) {
+                    Ok(o) => o,
+                    Err(_) => return Err("harness: option octets do not frame".into()),
+                };
+                let rec = OptRecord::from_record(Record::new(Name::root_vec(), Class::from_int(*udp), Ttl::from_secs(*ttl), opt));
+                catch_mut(|| Res::Push(b.opt(|o| o.clone_from(&rec))))
+            }
+            Some(_) => Ok(Res::Skip),
+            None => Err("no builder".into()),
+        },
+        COp::S { kind, id, opcode, rd, rcode, qs } => {
+            let cur = slot.take().ok_or_else(|| "no builder".to_string())?;
+            // the query
+            let src = {
+                // no compressor: a case-insensitive compressor would hand the questions back in another case
+                let mut mb = match MessageBuilder::from_target(Vec::<u8>::new()) { Ok(m) => m, Err(_) => return Err("harness: query".into()) };
+                let hd = mb.header_mut();
+                hd.set_id(*id);
+                hd.set_opcode(Opcode::from_int(*opcode & 0x0F));
+                hd.set_rd(*rd);
+                hd.set_aa(true);
+                hd.set_ad(true);
+                let mut qb = mb.question();
+                if *kind != 2 {
+                    for (n, t, c) in qs {
+                        let _ = qb.push((to_name(n), Rtype::from_int(*t), Class::from_int(*c)));
+                    }
+                }
+                match Message::from_octets(qb.finish()) { Ok(m) => m, Err(_) => return Err("harness: query".into()) }
+            };
+            let rc = Rcode::masked_from_int(*rcode);
+            let apex = qs.first().map_or(vec![0u8], |q| q.0.clone());
+            let (kind, id) = (*kind, *id);
+            let r = catch_mut(move || {
+                let mb = each!(cur, b => b.builder());
+                match kind {
+                    0 => mb.start_answer(&src, rc).map(Bld::An),
+                    1 => Ok(Bld::An(mb.start_error(&src, rc))),
+                    _ => mb.request_axfr(to_name(&apex)).map(|mut ab| { ab.header_mut().set_id(id); Bld::An(ab) }),
+                }
+            })?;
+            match r {
+                Ok(b) => { *slot = Some(b); Ok(if kind == 1 { Res::None } else { Res::Push(Ok(())) }) }
+                Err(e) => Ok(Res::Lost(e)),
+            }
+        }
         COp::H(h) => match slot.as_mut() {
             Some(b) => catch_mut(|| {
                 let hd = b.mb_mut().header_mut();
@@ -442,7 +582,28 @@ fn apply<T: Tgt>(slot: &mut Option<Bld<T>>, op: &COp) -> Result<Res, String> {
                     o.set_version(*ver);
                     o.set_dnssec_ok(*dok);
                     for (code, data) in opts {
-                        o.push_raw_option(OptionCode::from_int(*code), data.len() as u16, |t| t.append_slice(data))?;
+                        // the library's typed options where the octets are one (decided by the
+                        // octets alone, so that a case line replays identically), raw otherwise
+                        let typed = data.first().map_or(true, |b| b & 1 == 0);
+                        let mut done = false;
+                        match (*code, data.len()) {
+                            (3, _) if typed => if let Ok(x) = Nsid::from_octets(&data[..]) { o.push(&x)?; done = true; },
+                            (12, _) if typed => if let Ok(x) = Padding::from_octets(&data[..]) { o.push(&x)?; done = true; },
+                            (11, 0) => { o.push(&TcpKeepalive::new(None))?; done = true; }
+                            (11, 2) if typed => { o.push(&TcpKeepalive::new(Some(u16::from_be_bytes([data[0], data[1]]).into())))?; done = true; }
+                            (10, 8) if typed => { let mut c = [0u8; 8]; c.copy_from_slice(data); o.push(&Cookie::new(ClientCookie::from_octets(c), None))?; done = true; }
+                            (10, n) if typed && (16..=40).contains(&n) => {
+                                let mut c = [0u8; 8];
+                                c.copy_from_slice(&data[..8]);
+                                o.push(&Cookie::new(ClientCookie::from_octets(c), Some(ServerCookie::from_octets(&data[8..]))))?;
+                                done = true;
+                            }
+                            (14, n) if typed && n % 2 == 0 => if let Ok(x) = KeyTag::from_octets(&data[..]) { o.push(&x)?; done = true; },
+                            _ => {}
+                        }
+                        if !done {
+                            o.push_raw_option(OptionCode::from_int(*code), data.len() as u16, |t| t.append_slice(data))?;
+                        }
                     }
                     Ok(())
                 }))
@@ -600,6 +761,15 @@ fn expected_record(op: &Op) -> Option<ER> {
                 It::N(w) | It::U(w) => EI::N(w.clone()),
             }).collect(),
         }),
+        Op::C { udp, ext, ver, flags, opts } => {
+            let mut d = Vec::new();
+            for (code, data) in opts {
+                d.extend_from_slice(&code.to_be_bytes());
+                d.extend_from_slice(&(data.len() as u16).to_be_bytes());
+                d.extend_from_slice(data);
+            }
+            Some(ER { owner: vec![0], rt: 41, cl: *udp, ttl: ((*ext as u32) << 24) | ((*ver as u32) << 16) | *flags as u32, items: vec![EI::B(d)] })
+        }
         Op::O { udp, rc, ver, dok, opts } => {
             let ttl = ((rc.unwrap_or(0) as u32 >> 4) << 24) | ((*ver as u32) << 16) | if *dok { 0x8000 } else { 0 };
             let mut d = Vec::new();
@@ -812,13 +982,45 @@ fn run<T: Tgt>(out: &mut Out, target: T, case: &str, ops: &[Op]) -> (String, boo
     let (mut any_ok, mut any_fail, mut dup) = (false, false, false);
     let mut seen: HashSet<Wire> = HashSet::new();
     let mut dead = false;
+    let mut lost = false;
     for (i, op) in ops.iter().enumerate() {
         let cop = compile(op);
+        if let COp::TA { .. } = cop { out.count("info_typed_alldata"); }
+        if let (Op::R { pfx: 2, .. }, COp::R { .. }) = (op, &cop) { out.count("info_typed_fallback_raw"); }
         let (sec, before) = match slot.as_ref() {
             Some(b) => (b.sec(), if is_push(op) { Some(snap(b)) } else { None }),
             None => { dead = true; break; }
         };
+        // start_answer / start_error / request_axfr: what must come out
+        let s_expect = match (op, slot.as_ref()) {
+            (Op::S { kind, qs, .. }, Some(b)) => {
+                let prev = [b.mb().as_slice()[2], b.mb().as_slice()[3]];
+                let want: Vec<(Wire, u16, u16)> = if *kind == 2 { vec![(qs.first().map_or(vec![0u8], |q| q.0.clone()), 252, 1)] } else { qs.clone() };
+                let mut fit = 0usize;
+                let cl = b.clone();
+                let r = catch_mut(|| {
+                    let mut qb = each!(cl, x => x.builder()).question();
+                    let mut k = 0usize;
+                    for (n, t, c) in &want {
+                        if qb.push((to_name(n), Rtype::from_int(*t), Class::from_int(*c))).is_err() { break; }
+                        k += 1;
+                    }
+                    k
+                });
+                if let Ok(k) = r { fit = k; }
+                Some((prev, want, fit))
+            }
+            _ => None,
+        };
         let res = apply(&mut slot, &cop);
+        if let (Ok(Res::Lost(e)), Some((_, want, fit)), Op::S { kind, .. }) = (&res, s_expect.as_ref(), op) {
+            let w = match e { PushError::ShortBuf => "short", PushError::LimitExceeded => "limit", PushError::CountOverflow => "count" };
+            words.push(w);
+            out.check(*kind != 1 && *fit < want.len(), if *kind == 0 { "start_answer_wrong" } else { "request_axfr_wrong" }, case,
+                &format!("op {}: Err although {} of {} questions fit", i, fit, want.len()));
+            lost = true;
+            break;
+        }
         let res = match res {
             Err(p) => {
                 words.push("panic");
@@ -838,7 +1040,26 @@ fn run<T: Tgt>(out: &mut Out, target: T, case: &str, ops: &[Op]) -> (String, boo
             Some(b) => b,
             None => { dead = true; break; }
         };
+        if let (Op::S { kind, id, opcode, rd, rcode, .. }, Some((prev, want, fit))) = (op, s_expect.as_ref()) {
+            let class = match kind { 0 => "start_answer_wrong", 1 => "start_error_wrong", _ => "request_axfr_wrong" };
+            let all = *fit == want.len();
+            out.check(all || *kind == 1, class, case, &format!("op {}: Ok although only {} of {} questions fit", i, fit, want.len()));
+            acc = Acc::default();
+            for (n, t, c) in want.iter().take(*fit) {
+                acc.q.push(EQ { name: n.clone(), qt: *t, qc: *c });
+            }
+            let m = b.mb().as_slice();
+            let wanth = if *kind == 2 {
+                [(id >> 8) as u8, *id as u8, prev[0], prev[1]]
+            } else {
+                let rc = if *kind == 1 && !all { 2 } else { *rcode & 0x0F };
+                [(id >> 8) as u8, *id as u8, 0x80 | ((*opcode & 0x0F) << 3) | (prev[0] & 0x06) | (*rd as u8), (prev[1] & 0xF0) | rc]
+            };
+            out.check(m[..4] == wanth, class, case, &format!("op {}: header {} wanted {}", i, hexraw(&m[..4]), hexraw(&wanth)));
+            out.check(b.sec() == 1, class, case, &format!("op {}: not an answer builder", i));
+        }
         match res {
+            Res::Lost(_) => { dead = true; break; }
             Res::Skip => {
                 words.push("-");
                 continue;
@@ -868,6 +1089,10 @@ fn run<T: Tgt>(out: &mut Out, target: T, case: &str, ops: &[Op]) -> (String, boo
                 }
             }
             Res::Push(Ok(())) => {
+                if let (Op::C { .. }, Some(bf)) = (op, before.as_ref()) {
+                    out.check(b.mb().as_slice()[..4] == bf.msg[..4], "opt_clone_from_changed_header", case,
+                        &format!("op {}: header {} -> {}", i, hexraw(&bf.msg[..4]), hexraw(&b.mb().as_slice()[..4])));
+                }
                 if let (Op::O { rc: Some(v), .. }, Some(bf)) = (op, before.as_ref()) {
                     let o3 = b.mb().as_slice()[3];
                     out.check(o3 == (bf.msg[3] & 0xF0) | (*v as u8 & 0x0F) && b.mb().as_slice()[..3] == bf.msg[..3], "opt_set_rcode_header_wrong", case,
@@ -883,6 +1108,7 @@ fn run<T: Tgt>(out: &mut Out, target: T, case: &str, ops: &[Op]) -> (String, boo
                 }
                 match op {
                     Op::Q { name, qt, qc } => acc.q.push(EQ { name: name.clone(), qt: *qt, qc: *qc }),
+                    Op::S { .. } => {}
                     _ => {
                         if let Some(er) = expected_record(op) {
                             if sec >= 1 {
@@ -891,7 +1117,8 @@ fn run<T: Tgt>(out: &mut Out, target: T, case: &str, ops: &[Op]) -> (String, boo
                         }
                     }
                 }
-                if let Some(l) = limit {
+                // (start_answer with no question pushes nothing: the limit does not apply)
+                if let (Some(l), false) = (limit, matches!(op, Op::S { .. })) {
                     out.check(b.len() <= l, "push_exceeded_limit", case, &format!("op {}: push accepted, length {} with limit {}", i, b.len(), l));
                 }
             }
@@ -952,6 +1179,10 @@ fn run<T: Tgt>(out: &mut Out, target: T, case: &str, ops: &[Op]) -> (String, boo
         r.push('-');
     } else {
         r.push_str(&words.join(","));
+    }
+    if lost {
+        r.push_str(" LOST");
+        return (r, true);
     }
     if dead {
         r.push_str(" DEAD");
@@ -1020,6 +1251,13 @@ fn dispatch(out: &mut Out, cx: &Ctx) {
             128 => with_k(out, cx, Array::<128>::default),
             _ => with_k(out, cx, Array::<512>::default),
         },
+        // heapless::Vec<u8, N>: fixed capacity like Array<N>; SmallVec: unbounded like Vec
+        'p' => match cx.cap {
+            40 => with_k(out, cx, heapless::Vec::<u8, 40>::new),
+            128 => with_k(out, cx, heapless::Vec::<u8, 128>::new),
+            _ => with_k(out, cx, heapless::Vec::<u8, 512>::new),
+        },
+        'm' => with_k(out, cx, smallvec::SmallVec::<[u8; 24]>::new),
         _ => with_k(out, cx, Vec::<u8>::new),
     }
 }
@@ -1185,7 +1423,63 @@ impl<'a> Gen<'a> {
             It::B(self.r.bytes(n))
         }
     }
+    fn charstr(&mut self, max: u64) -> Vec<u8> {
+        let n = self.r.below(max + 1) as usize;
+        let mut v = vec![n as u8];
+        v.extend(self.r.bytes(n));
+        v
+    }
+    fn bitmap(&mut self) -> Vec<u8> {
+        let n = self.r.range(1, 6) as usize;
+        let mut v = vec![0u8, n as u8];
+        v.extend(self.r.bytes(n - 1));
+        v.push(self.r.u8() | 1);
+        v
+    }
+    /// Record data of further types of domain::rdata, built to be valid, pushed
+    /// through the library's typed value (pfx = 2).
+    fn rec_typed(&mut self) -> Op {
+        let owner = self.name();
+        let (rt, items): (u16, Vec<It>) = match self.r.below(18) {
+            0 => { let mut b = Vec::new(); for _ in 0..self.r.range(1, 3) { b.extend(self.charstr(40)); } (16, vec![It::B(b)]) }
+            1 => { let mut b = self.charstr(10); b.extend(self.charstr(10)); (13, vec![It::B(b)]) }
+            2 => (39, vec![It::U(self.name())]),
+            3 => (*self.r.pick(&[7u16, 8, 9, 3, 4]), vec![It::N(self.name())]),
+            4 => (14, vec![It::N(self.name()), It::N(self.name())]),
+            5 => (17, vec![It::N(self.name()), It::N(self.name())]),
+            6 => { let mut b = vec![1, self.r.u8() & 1, 3, *self.r.pick(&[8u8, 13, 15])]; let n = self.r.range(1, 40) as usize; b.extend(self.r.bytes(n)); (*self.r.pick(&[48u16, 60]), vec![It::B(b)]) }
+            7 => { let mut b = self.r.bytes(2); b.push(13); b.push(2); let n = self.r.range(1, 32) as usize; b.extend(self.r.bytes(n)); (*self.r.pick(&[43u16, 59]), vec![It::B(b)]) }
+            8 => { let mut b = vec![0, 1, 13, 2]; b.extend(self.r.bytes(14)); let n = self.r.range(1, 40) as usize; (46, vec![It::B(b), It::U(self.name()), It::B(self.r.bytes(n))]) }
+            9 => (47, vec![It::U(self.name()), It::B(self.bitmap())]),
+            10 => {
+                let mut b = vec![1, self.r.u8() & 1, 0, 10];
+                let sl = self.r.below(9) as usize; b.push(sl as u8); b.extend(self.r.bytes(sl));
+                let hl = self.r.range(1, 20) as usize; b.push(hl as u8); b.extend(self.r.bytes(hl));
+                b.extend(self.bitmap());
+                (50, vec![It::B(b)])
+            }
+            11 => { let mut b = vec![3, 1, 1]; let n = self.r.range(1, 32) as usize; b.extend(self.r.bytes(n)); (52, vec![It::B(b)]) }
+            12 => { let mut b = vec![self.r.u8() & 0x80, 5]; b.extend_from_slice(b"issue"); let n = self.r.below(20) as usize; b.extend(self.r.bytes(n)); (257, vec![It::B(b)]) }
+            13 => {
+                let mut params = Vec::new();
+                if self.r.chance(1, 2) { params.extend_from_slice(&[0, 3, 0, 2]); params.extend(self.r.bytes(2)); }
+                if self.r.chance(1, 2) { let n = self.r.below(12) as usize; params.extend_from_slice(&[0xff, 0x00]); params.extend_from_slice(&(n as u16).to_be_bytes()); params.extend(self.r.bytes(n)); }
+                let mut v = vec![It::B(self.r.bytes(2)), It::U(self.name())];
+                if !params.is_empty() { v.push(It::B(params)); }
+                (*self.r.pick(&[64u16, 65]), v)
+            }
+            14 => { let mut b = self.r.bytes(4); b.extend(self.charstr(3)); b.extend(self.charstr(8)); b.extend(self.charstr(12)); (35, vec![It::B(b), It::U(self.name())]) }
+            15 => { let mut b = vec![*self.r.pick(&[1u8, 4]), 2]; let n = self.r.range(1, 32) as usize; b.extend(self.r.bytes(n)); (44, vec![It::B(b)]) }
+            16 => { let mut b = self.r.bytes(4); b.push(1); b.push(1); b.extend(self.r.bytes(48)); (63, vec![It::B(b)]) }
+            _ => { let n = self.r.range(1, 60) as usize; (61, vec![It::B(self.r.bytes(n))]) }
+        };
+        let ttl = if self.r.chance(1, 5) { self.r.u32() } else { 300 };
+        Op::R { owner, rt, cl: 1, ttl, pfx: 2, items }
+    }
     fn rec(&mut self, sz: Size) -> Op {
+        if self.r.chance(1, 5) {
+            return self.rec_typed();
+        }
         let owner = self.name();
         let kind = if sz == Size::Medium && self.r.chance(2, 5) { self.r.range(9, 13) } else { self.r.below(14) };
         let (rt, items): (u16, Vec<It>) = match kind {
@@ -1237,9 +1531,16 @@ impl<'a> Gen<'a> {
         let udp = if self.r.chance(1, 4) { self.r.u16() } else { *self.r.pick(&[512u16, 1232, 4096, 0, 65535]) };
         let mut opts = Vec::new();
         for _ in 0..self.r.below(4) {
-            let code = if self.r.chance(1, 3) { self.r.u16() } else { *self.r.pick(&[3u16, 8, 10, 12, 15, 65001]) };
-            let n = if self.r.chance(1, 4) { 0 } else { self.r.below(24) as usize };
-            opts.push((code, self.r.bytes(n)));
+            let code = if self.r.chance(1, 3) { self.r.u16() } else { *self.r.pick(&[3u16, 8, 10, 11, 12, 14, 15, 65001]) };
+            let n = match code {
+                10 => *self.r.pick(&[8usize, 16, 24, 40, 7, 9]),
+                11 => *self.r.pick(&[0usize, 2, 2, 3]),
+                14 => 2 * self.r.below(6) as usize,
+                _ => if self.r.chance(1, 4) { 0 } else { self.r.below(24) as usize },
+            };
+            let mut d = self.r.bytes(n);
+            if n > 0 && self.r.chance(2, 3) { d[0] &= 0xFE; }
+            opts.push((code, d));
         }
         // header fields of the OPT record: extended rcode (with and without
         // touching the message header), version, DO; values with the top bit set
@@ -1250,6 +1551,10 @@ impl<'a> Gen<'a> {
         };
         let ver = match self.r.below(4) { 0 => *self.r.pick(&[0x80u8, 0xFF, 1, 0x7F]), 1 => self.r.u8(), _ => 0 };
         let dok = self.r.chance(1, 3);
+        if self.r.chance(1, 4) {
+            // OptBuilder::clone_from of an OPT record with these header fields and options
+            return Op::C { udp, ext: rc.map_or(0, |v| (v >> 4) as u8), ver, flags: if self.r.chance(1, 2) { self.r.u16() } else if dok { 0x8000 } else { 0 }, opts };
+        }
         Op::O { udp, rc, ver, dok, opts }
     }
     fn header(&mut self) -> Op {
@@ -1331,8 +1636,17 @@ impl<'a> Gen<'a> {
                     1 => s.push(Sym::LimCur(self.r.range(50, 3000) as i64)),
                     _ => s.push(Sym::C(Op::NL)),
                 }
-            } else if c < 93 {
+            } else if c < 92 {
                 s.push(Sym::C(Op::NL));
+            } else if c < 93 {
+                // start_answer / start_error / request_axfr from whatever builder we hold
+                let kind = self.r.below(3) as u8;
+                let mut qs = Vec::new();
+                for _ in 0..(if kind == 2 { 1 } else { self.r.below(4) }) {
+                    if let Op::Q { name, qt, qc } = self.question() { qs.push((name, qt, qc)); }
+                }
+                s.push(Sym::C(Op::S { kind, id: self.r.u16(), opcode: self.r.below(16) as u8, rd: self.r.chance(1, 2), rcode: self.r.below(16) as u8, qs }));
+                *sec = 1;
             } else if c < 95 {
                 let h = self.header();
                 s.push(Sym::C(h));
@@ -1517,7 +1831,7 @@ fn combos(ts: &[char], ks: &[char], cap: usize) -> Vec<Combo> {
     let mut v = Vec::new();
     for &t in ts {
         for &k in ks {
-            v.push((t, k, if t == 'a' { cap } else { 0 }));
+            v.push((t, k, if t == 'a' || t == 'p' { cap } else { 0 }));
         }
     }
     v
@@ -1780,6 +2094,41 @@ fn corpus(pool: &Pool) -> Vec<(Vec<Sym>, Vec<Combo>)> {
         }
     }
 
+    // start_answer / start_error / request_axfr as script operations: from every section, with
+    // header flags set before, questions that fit and that do not (tiny array, push limit)
+    let sq = |n: &str, t: u16| (nm(n), t, 1u16);
+    for kind in 0..3u8 {
+        for from in 0..4u8 {
+            let mut sc = vec![Sym::C(Op::H([0xAA, 0x55, 0x06, 0xF7])), qq("old.example.", 1)];
+            if from >= 1 { sc.push(g(from)); sc.push(a_rr("old.example.", 1, [1, 1, 1, 1])); }
+            sc.push(Sym::C(Op::S { kind, id: 0x1234, opcode: 5, rd: true, rcode: 3, qs: vec![sq("example.com.", 1), sq("www.example.com.", 28)] }));
+            sc.push(a_rr("www.EXAMPLE.com.", 60, [2, 2, 2, 2]));
+            sc.push(g(3));
+            sc.push(Sym::C(Op::O { udp: 1232, rc: Some(0x0801), ver: 0, dok: true, opts: vec![] }));
+            c.push((sc, { let mut v = combos(&['v', 's'], &ALLK, 0); v.extend(combos(&['a'], &['n', 's'], 128)); v }));
+        }
+        // questions that do not fit: capacity, and a push limit reached by the second question
+        c.push((vec![Sym::C(Op::S { kind, id: 7, opcode: 0, rd: false, rcode: 0, qs: vec![sq("example.com.", 1), sq("a-rather-long-label.example.com.", 1), sq("example.com.", 2)] }),
+            a_rr("example.com.", 1, [1, 1, 1, 1])], combos(&['a'], &ALLK, 40)));
+        c.push((vec![Sym::C(Op::L(40)), Sym::C(Op::S { kind, id: 7, opcode: 2, rd: true, rcode: 5, qs: vec![sq("example.com.", 1), sq("other.test.", 1), sq("example.com.", 2)] }),
+            Sym::C(Op::NL), a_rr("example.com.", 1, [1, 1, 1, 1])], combos(&['v', 's'], &ALLK, 0)));
+        c.push((vec![Sym::C(Op::S { kind, id: 0xFFFF, opcode: 15, rd: true, rcode: 15, qs: vec![] }), a_rr(".", 1, [1, 1, 1, 1])], combos(&['v'], &ALLK, 0)));
+    }
+
+    // heapless and smallvec targets: golden tests, typed records, exact fit and one over, a failed
+    // push followed by the same names, OPT
+    let pm = { let mut v = combos(&['p'], &ALLK, 40); v.extend(combos(&['p'], &ALLK, 128)); v.extend(combos(&['m'], &ALLK, 0)); v };
+    c.push((vec![qq("example.com.", 1), g(1), a_rr("example.com.", 3600, [203, 0, 113, 1])], pm.clone()));
+    c.push((eight.clone(), { let mut v = combos(&['p'], &ALLK, 512); v.extend(combos(&['m'], &ALLK, 0)); v }));
+    c.push((vec![qq("example.com.", 1), g(1), Sym::LimNext(0), a_rr("yyy.example.com.", 1, [1, 1, 1, 1]), Sym::C(Op::NL), a_rr("zzz.example.com.", 1, [2, 2, 2, 2]),
+        a_rr("yyy.example.com.", 1, [3, 3, 3, 3]), g(3), Sym::C(Op::O { udp: 1232, rc: Some(0x0FF3), ver: 2, dok: true, opts: vec![(3, vec![6; 5])] }),
+        a_rr("yyy.example.com.", 1, [4, 4, 4, 4]), a_rr("zzz.example.com.", 1, [5, 5, 5, 5]), Sym::C(Op::W), a_rr("example.com.", 1, [6, 6, 6, 6])], pm.clone()));
+    for cap in [40usize, 128] {
+        // fill to exactly cap and to cap + 1
+        c.push((vec![g(1), Sym::Pad { owner: nm("."), rt: 16, cl: 1, ttl: 0, pfx: 0, items: vec![It::Z(0, 7)], slot: 0, to: cap }, a_rr(".", 1, [1, 1, 1, 1]), Sym::C(Op::W),
+            Sym::Pad { owner: nm("."), rt: 16, cl: 1, ttl: 0, pfx: 1, items: vec![It::Z(0, 7)], slot: 0, to: cap + 1 }, a_rr(".", 1, [1, 1, 1, 1])], combos(&['p'], &ALLK, cap)));
+    }
+
     c
 }
 
@@ -1965,8 +2314,8 @@ fn main() {
                 "small" => {
                     let m = gen.r.below(40) + 1;
                     let n = 1 + gen.r.below(m) as usize;
-                    let t = ALLT[(j % 4) as usize];
-                    let cap = if t == 'a' { *gen.r.pick(&[40usize, 128, 128, 512]) } else { 0 };
+                    let t = ['v', 'b', 'a', 's', 'p', 'm'][(j % 6) as usize];
+                    let cap = if t == 'a' || t == 'p' { *gen.r.pick(&[40usize, 128, 128, 512]) } else { 0 };
                     (gen.script(n, Size::Small), t, cap)
                 }
                 "medium" => {
